@@ -58,7 +58,9 @@ def test_image(np, H=260, W=520):
 
 def check_geometry(np, ce, pts, heights, poly, line_height, scale):
     bad = []
-    eng = ce.EngineLineCropper(line_height=line_height, poly=poly, scale=scale)
+    # get_crop_inputs is also called with a target height that is not the engine's configured one (the ALTO export asks a default
+    # engine, configured for 32 rows, for 16): for the quadratic order the engine is configured differently from the request
+    eng = ce.EngineLineCropper(line_height=(line_height if poly != 2 else 2 * line_height), poly=poly, scale=scale)
     b = np.asarray(pts, dtype=float)
     try:
         coords = eng.get_crop_inputs(b, list(heights), line_height)
